@@ -173,6 +173,12 @@ defs: List[Def] = [
         replacement=r'<div id="$1"></div>',
         filter=anchorFilter,
     ),
+    # API Option (precedes Block Attributes, whose loose match would otherwise strip the backslash of an escaped API Option).
+    # name = $1, value = $2
+    Def(
+        match=re.compile(r"^\\?\.(\w+)\s*=\s*'(.*)'$"),
+        filter=apiOptionFilter,
+    ),
     # Block Attributes.
     # Syntax: .class-names  # id [html-attributes] block-options
     Def(
@@ -180,12 +186,6 @@ defs: List[Def] = [
         # A loose match because Block Attributes can contain macro references.
         match=re.compile(r'^\\?\.[a-zA-Z#"\[+-].*$'),
         verify=lambda match, _: blockattributes.parse(match[0])
-    ),
-    # API Option.
-    # name = $1, value = $2
-    Def(
-        match=re.compile(r"^\\?\.(\w+)\s*=\s*'(.*)'$"),
-        filter=apiOptionFilter,
     ),
 ]
 
